@@ -56,93 +56,47 @@ func runC12(p *Program, e *Engine, r *Result, tier string) {
 }
 
 func kernelGone(a *An, c Conj) bool {
-	return c.has(func(l Lit) bool {
-		return isBitLit(l, "IN_IGNORED", a) || isBitLit(l, "IN_UNMOUNT", a) || isBitLit(l, "IN_DELETE_SELF", a)
-	})
+	return c.has(func(l Lit) bool { return bitsWithin(l, a, "IN_IGNORED", "IN_UNMOUNT", "IN_DELETE_SELF") })
 }
 
 func c12Acquire(a *An, tf *tableFacts, addWith *ssa.Function) {
-	w := a.walk(addWith)
-	adds := syscallVisits(a, w, "InotifyAddWatch")
-	if len(adds) != 1 {
-		a.R.fail("anchor unresolved: exactly one inotify_add_watch on the Add flow (found %d)", len(adds))
+	af := addFlow(a, tf, addWith)
+	if af == nil {
 		return
 	}
-	add := adds[0]
-	kctx := add.Ctx
-	wdPath := kctx.path(add.Instr.(*ssa.Call)) + "#0"
-	wdF, _ := tf.watchFields()
-	succ := successOf(add)
 	n := 0
-	for _, v := range w.Visits {
-		r, ok := v.Instr.(*ssa.Return)
-		if !ok || v.Ctx != kctx || len(r.Results) == 0 {
-			continue
-		}
-		if isNilConst(r.Results[0]) {
+	seen := map[string]bool{}
+	for _, se := range af.stores {
+		if se.kind == "nil" {
 			continue
 		}
 		n++
-		under, _ := v.Cond.everyConj(func(c Conj) bool { return c.has(succ) })
-		rv, rc := v.Ctx.resolve(r.Results[0])
-		form, ok2 := "", false
-		switch x := rv.(type) {
-		case *ssa.Extract:
-			if lk, isLk := x.Tuple.(*ssa.Lookup); isLk && rc.fieldOfValue(lk.X) == tf.wdTable && rc.path(lk.Index) == wdPath {
-				form, ok2 = "the existing entry found under the new descriptor", true
-			}
-		case *ssa.Lookup:
-			if rc.fieldOfValue(x.X) == tf.wdTable && rc.path(x.Index) == wdPath {
-				form, ok2 = "the existing entry found under the new descriptor", true
-			}
-		case *ssa.Alloc:
-			// fresh entry: its wd field is stored with the descriptor
-			if refs := x.Referrers(); refs != nil {
-				for _, rr := range *refs {
-					if fa, isFA := rr.(*ssa.FieldAddr); isFA && fieldName(fa.X.Type(), fa.Field) == wdF {
-						if fr := fa.Referrers(); fr != nil {
-							for _, u := range *fr {
-								if st, isSt := u.(*ssa.Store); isSt && st.Addr == ssa.Value(fa) && rc.path(st.Val) == wdPath {
-									form, ok2 = "a fresh entry built with the new descriptor", true
-								}
-							}
-						}
-					}
-				}
-			}
-		default:
-			// an existing entry re-pointed: a store E.wd = descriptor dominates the return
-			for _, u := range w.Visits {
-				if u.Ctx != v.Ctx {
-					continue
-				}
-				st, isSt := u.Instr.(*ssa.Store)
-				if !isSt || !instrDominates(st, r) {
-					continue
-				}
-				if fa, isFA := st.Addr.(*ssa.FieldAddr); isFA && fieldName(fa.X.Type(), fa.Field) == wdF {
-					bv, _ := u.Ctx.resolve(fa.X)
-					if bv == rv && u.Ctx.path(st.Val) == wdPath {
-						form, ok2 = "the previous entry re-pointed to the new descriptor", true
-					}
-				}
-			}
-		}
+		under, bad := se.e.Cond.everyConj(func(c Conj) bool { return c.has(af.succ) })
+		form := map[string]string{
+			"alias":     "the existing entry found under the new descriptor",
+			"fresh":     "a fresh entry built with the new descriptor",
+			"repointed": "the previous entry re-pointed to the new descriptor",
+		}[se.kind]
+		ok := form != ""
 		wit := form
-		if !ok2 {
-			wit = "returned entry " + stripIDs(rc.path(rv)) + " is not tied to the descriptor just obtained"
+		if !ok {
+			wit = "stored entry " + tail(stripIDs(se.e.Ctx.path(se.e.V)), 100) + " is not tied to the descriptor just obtained"
 		}
 		if !under {
-			ok2 = false
-			wit += "; returned without a successful inotify_add_watch"
+			ok = false
+			wit += "; stored without a successful inotify_add_watch under " + tail(stripIDs(bad.String()), 200)
 		}
-		a.R.ob("C12.1", "acquire:return("+tail(stripCallArgs(stripIDs(rc.path(rv))), 50)+")", "an entry returned by the registration callback carries the descriptor the kernel just returned (a successful Add is always recorded under its wd)",
-			a.P.instrPos(r), ok2, wit)
+		key := "acquire:stored(" + se.kind + ")"
+		if seen[key] && ok {
+			continue
+		}
+		seen[key] = true
+		a.R.ob("C12.1", key, "an entry stored in the wd table on the Add flow carries the descriptor the kernel just returned (a successful Add is always recorded under its wd)",
+			a.P.instrPos(se.site.Instr), ok, wit)
 	}
 	if n == 0 {
-		a.R.fail("no non-nil return of the registration callback found (vacuous)")
+		a.R.fail("no entry is stored into the wd table on the Add flow (vacuous)")
 	}
-	// the caller stores the returned entry in both tables under its own wd/path (pairing form d) - checked by C12.3
 }
 
 func c12Release(a *An, tf *tableFacts, root *ssa.Function) {
